@@ -582,7 +582,7 @@ func TestWitnessBinding(t *testing.T) {
 	rec.Assume("the dynamic struct hangs under a fixed `Shell{Body any}` holder, which only prefixes names with Body_")
 	fields := []string{"f47", "f47", "bn254", "bls12-377", "bls12-381", "bw6-761", "bls24-315", "bls24-317", "bw6-633", "babybear", "koalabear"}
 	g := genCase(fields)
-	rec.Check(t, "shape", ev.N(20000, 300000), func(rt *rapid.T) {
+	rec.Check(t, "shape", ev.N(40000, 300000), func(rt *rapid.T) {
 		c := g.Draw(rt, "case")
 		rec.Begin("shape", c)
 		rec.Report(rt, "shape", c, run(c))
